@@ -121,6 +121,38 @@ def nav(mmax, n, sk, rev, **kw):
     return ""
 
 
+def restructure(m, n, rev, **kw):
+    """levels / export numbering agree with the model also after the tree was numbered once and then restructured"""
+    from trees import transform
+    from harness.symtree import e1_get
+    ip, lp = e1_get(kw, m, n)
+    nodes, leaves = build_e1(m, n, ip, lp, rev=rev)
+    root = nodes[0]
+    for step in ("fresh", "after root_attach", "after delete_terminal"):
+        if step == "after root_attach":
+            root = transform.root_attach(root)
+        elif step == "after delete_terminal":
+            if n < 2:
+                break
+            trees.delete_terminal(root, leaves[0])
+            leaves = leaves[1:]
+        cons = [x for x in nodes if x.children or x is root]
+        cons = [x for x in cons if x is root or _index(_anc(x), root) >= 0]
+        cons = [x for x in cons if x.children]
+        lv, rl = trees.levels(root)
+        for x in cons:
+            if rl.get(x) != _height(x):
+                return "%s: level of %s is %r, longest downward path %d" % (step, x.data['label'], rl.get(x), _height(x))
+        treeoutput.compute_export_numbering(root)
+        if sorted(x.data['num'] for x in cons) != [0] + list(range(500, 500 + len(cons) - 1)):
+            return "%s: export numbering is not a bijection onto 0, 500.." % step
+        for x in cons:
+            for a in _anc(x)[1:]:
+                if a is not root and not x.data['num'] < a.data['num']:
+                    return "%s: constituent numbered above its ancestor" % step
+    return ""
+
+
 def conds(tier):
     q = tier == "quick"
     cs = []
@@ -131,4 +163,10 @@ def conds(tier):
                        fixed={"mmax": mmax, "n": n}, pre=[distinct_expr(n)], shard=["sk", "rev"],
                        timeout=to, functions=FUNCS,
                        note="%d skeletons with <= %d constituents and %d tokens; positions arbitrary distinct ints" % (ns, mmax, n)))
+    from harness.symtree import e1_params, e1_wf_expr
+    for (m, n) in ([(2, 3), (3, 3), (3, 4)] if q else [(3, 3), (3, 4), (4, 4)]):
+        cs.append(Cond("restructure-m%d-n%d" % (m, n), "harness.c19:restructure", e1_params(m, n) + [P("rev", "bool")],
+                       fixed={"m": m, "n": n}, pre=[e1_wf_expr(m, n)], shard=["rev"] + (["lp1"] if m * n >= 12 else []) + (["lp2"] if m * n >= 16 else []),
+                       timeout=600 if q else 3000, functions=FUNCS[-2:] + ["transform.root_attach", "trees.delete_terminal"],
+                       note="levels and export numbering recomputed after the tree changed"))
     return cs
